@@ -128,6 +128,14 @@ Theorem C16_check_voronoi_sound : forall ulps denv sites cells, check_voronoi ul
   VoronoiSpec ulps denv sites (map cell_ccw cells).
 Proof. exact check_voronoi_sound. Qed.
 Print Assumptions C16_check_voronoi_sound.
+(* edges-only output: every returned vertex lies in the envelope and on a Voronoi edge (nearest site s, another site as near) *)
+Theorem C16_check_voronoi_edges_sound : forall ulps denv sites lines, check_voronoi_edges ulps denv sites lines = true ->
+  forall l v, In l lines -> In v l -> env_covers_pt denv v = true /\ on_voronoi_edge ulps (env_mag denv) sites v.
+Proof. exact check_voronoi_edges_sound. Qed.
+Print Assumptions C16_check_voronoi_edges_sound.
+Example ex_voronoi_edges : check_voronoi_edges 0 (mkEnv (-1) 2 (-1) 2) [(0, 0); (1, 1)] [[(-1, 2); (2, -1)]] = true
+  /\ check_voronoi_edges 0 (mkEnv (-1) 2 (-1) 2) [(0, 0); (1, 1)] [[(-1, 2); (2, 0)]] = false.
+Proof. vm_compute. split; reflexivity. Qed.
 (* two sites, exact cells (units of 1/1): envelope [-1,2]^2 *)
 Example ex_voronoi : diagram_env [(0, 0); (1, 1)] None = Some (mkEnv (-1) 2 (-1) 2)
   /\ check_voronoi 0 (mkEnv (-1) 2 (-1) 2) [(0, 0); (1, 1)] [[(2, -1); (-1, -1); (-1, 2)]; [(-1, 2); (2, 2); (2, -1)]] = true
